@@ -39,6 +39,7 @@ fn main() {
                 "c09s" => vh::c09::child_s(idx),
                 "c10" => vh::c10::child(idx),
                 "c06s" => vh::c06::child_s(idx),
+                "c06d" => vh::c06::child_d(idx),
                 "c05s" => vh::c05::child_s(idx),
                 "c16s" => vh::c16::child_s(idx),
                 "c15" => vh::c15::child(idx),
@@ -63,7 +64,7 @@ fn main() {
                 "c15" | "c15enc" => vh::c15::replay(r),
                 "c11" => vh::c11::replay(r),
                 "c12" | "c13" | "c14" => vh::c12::replay(r),
-                "c06h" | "c06s" => vh::c06::replay(r),
+                "c06h" | "c06s" | "c06d" => vh::c06::replay(r),
                 _ => usage(),
             }
         }
